@@ -347,3 +347,86 @@ __attribute__((destructor)) static void dtor(void) {
     int len = snprintf(buf, sizeof buf, "T %lu %lu totals\n", g_nread, g_nwrite);
     if (len > 0) real_write(g_log_fd, buf, (size_t)len);
 }
+
+/* ---------------- S6: clock ---------------- */
+/* simfony has no clock.  If a change introduces one (a timestamp in an id, a time-based cache
+ * expiry, a "seed" from the time), two processes - or two calls in one process - see different
+ * times.  With SIMSEAM_CLOCK=<u64> every clock read returns a seeded base plus a seeded,
+ * strictly increasing offset, so "what time it is" becomes one more seeded dimension. */
+#include <sys/time.h>
+#include <time.h>
+
+static int g_clock_on = -1;
+static uint64_t g_clock_state = 0;
+static int64_t g_clock_ns = 0;
+static uint64_t g_clock_reads = 0;
+
+static int clock_seam(void) {
+    if (g_clock_on < 0) {
+        const char *s = getenv("SIMSEAM_CLOCK");
+        if (s && *s) {
+            g_clock_state = strtoull(s, NULL, 10);
+            uint64_t st = g_clock_state;
+            /* base between 2020-09-13 and about ten years later */
+            g_clock_ns = (int64_t)(1600000000ULL + splitmix64(&st) % 315360000ULL) * 1000000000LL;
+            g_clock_on = 1;
+        } else {
+            g_clock_on = 0;
+        }
+    }
+    return g_clock_on;
+}
+
+static int64_t clock_tick(void) {
+    /* 1 us .. ~1 s per read, sometimes a jump of hours */
+    uint64_t r = splitmix64(&g_clock_state);
+    int64_t step = 1000 + (int64_t)(r % 1000000000ULL);
+    if ((r >> 40) % 64 == 0) step += 3600LL * 1000000000LL * (int64_t)(1 + (r >> 50) % 48);
+    g_clock_ns += step;
+    g_clock_reads++;
+    return g_clock_ns;
+}
+
+uint64_t simseam_clock_reads(void) { return g_clock_reads; }
+
+int clock_gettime(clockid_t clk, struct timespec *ts) {
+    static int (*real)(clockid_t, struct timespec *) = NULL;
+    if (!clock_seam() || !ts) {
+        if (!real) real = dlsym(RTLD_NEXT, "clock_gettime");
+        return real(clk, ts);
+    }
+    int64_t t = clock_tick();
+    if (clk == CLOCK_MONOTONIC || clk == CLOCK_MONOTONIC_RAW || clk == CLOCK_BOOTTIME
+#ifdef CLOCK_MONOTONIC_COARSE
+        || clk == CLOCK_MONOTONIC_COARSE
+#endif
+    ) {
+        t -= 1600000000LL * 1000000000LL; /* monotonic clocks count from an arbitrary origin */
+    }
+    ts->tv_sec = t / 1000000000LL;
+    ts->tv_nsec = t % 1000000000LL;
+    return 0;
+}
+
+int gettimeofday(struct timeval *tv, void *tz) {
+    static int (*real)(struct timeval *, void *) = NULL;
+    if (!clock_seam() || !tv) {
+        if (!real) real = dlsym(RTLD_NEXT, "gettimeofday");
+        return real(tv, tz);
+    }
+    int64_t t = clock_tick();
+    tv->tv_sec = t / 1000000000LL;
+    tv->tv_usec = (t % 1000000000LL) / 1000;
+    return 0;
+}
+
+time_t time(time_t *out) {
+    static time_t (*real)(time_t *) = NULL;
+    if (!clock_seam()) {
+        if (!real) real = dlsym(RTLD_NEXT, "time");
+        return real(out);
+    }
+    time_t t = (time_t)(clock_tick() / 1000000000LL);
+    if (out) *out = t;
+    return t;
+}
